@@ -3,20 +3,29 @@
 (* in the archive: missing names at every position, duplicates), 1..MaxT workers, unbatched and       *)
 (* batch sizes 1..MaxB, skip_errors on and off; then the archive is replaced (generation 2: b is gone, x is new, a has other    *)
 (* contents) and a second call is made by the same workers.                                                        *)
+(* A call is any interface with explicit arguments (Start), extract_with_config with a configuration whose batch    *)
+(* size may be unset (StartCfg: bopt = 0; thresholds scaled to SwitchAt / AdaptAt of the cfg) or a multi-archive      *)
+(* helper (StartMulti: the request is the archive list, |req| = 0..MaxLen archives incl. the non power of two 3);    *)
+(* the result is collected in place or by a reduce tree in every bracketing.                                         *)
 EXTENDS ParExtract
 CONSTANTS MaxLen, MaxT, MaxB
 Alphabet == {"a", "b", "x"}
 MCPresentAt == <<{"a", "b"}, {"a", "x"}>>       \* generation 1, generation 2
 Reqs == UNION {[1..n -> Alphabet] : n \in 0..(MaxLen - 1)} \cup [1..MaxLen -> {"a", "x"}]
-Init == \E req \in Reqs, t \in 1..MaxT, b \in 0..MaxB, skip \in BOOLEAN : Start(req, t, b, skip)
+Init == \/ \E req \in Reqs, t \in 1..MaxT, b \in 0..MaxB, skip \in BOOLEAN : Start(req, t, b, skip)
+        \/ \E req \in Reqs, t \in 1..MaxT, bopt \in 0..MaxB, skip \in BOOLEAN : StartCfg(req, t, bopt, skip)
+        \/ \E areq \in Reqs, t \in 1..MaxT : StartMulti(areq, t)
 DoTake    == \E w \in Workers, k \in Tasks : TakeTask(w, k)
 DoSeek    == \E w \in Workers : Seek(w)
 DoReadOne == \E w \in Workers : ReadOne(w)
 DoFail    == \E w \in Workers : FailFast(w)
 DoSkip    == \E k \in Tasks : SkipTask(k)
 DoCollect == Collect
+DoBeginReduce == BeginReduce
+DoMerge   == \E j \in 1..Len(vparts) : Merge(j)
+DoCollectReduced == CollectReduced
 \* the next call on the replaced archive: the requests that tell generations apart (a name that is gone, one that is new)
 Reqs2     == {<<>>, <<"a">>, <<"b">>, <<"x">>, <<"a", "b">>, <<"x", "a">>, <<"b", "a", "x">>}
 DoReplace == \E req \in Reqs2 : ReplaceAndCall(req)
-Next == DoTake \/ DoSeek \/ DoReadOne \/ DoFail \/ DoSkip \/ DoCollect \/ DoReplace
+Next == DoTake \/ DoSeek \/ DoReadOne \/ DoFail \/ DoSkip \/ DoCollect \/ DoBeginReduce \/ DoMerge \/ DoCollectReduced \/ DoReplace
 =============================================================================
